@@ -287,6 +287,29 @@ theorem normDefault_plain (d : Bytes) (h : plainDefault d = true) : normDefault 
   obtain ⟨⟨⟨⟨⟨h1, h2⟩, h3⟩, h4⟩, h5⟩, h6⟩ := h
   simp [normDefault, h1, h2, h3, h4, h5, h6]
 
+theorem getLast?_snoc' (a : Bytes) (q : UInt8) : (a ++ [q]).getLast? = some q := by simp
+
+/-- a default in single or double quotes loses exactly its quotes -/
+theorem normDefault_quoted (q : UInt8) (inner : Bytes) (hq : q = 39 ∨ q = 34) :
+    normDefault (q :: (inner ++ [q])) = .ok inner := by
+  have htrue : ofString "true" = [116, 114, 117, 101] := by decide
+  have hfalse : ofString "false" = [102, 97, 108, 115, 101] := by decide
+  have hmap : ofString "map[" = [109, 97, 112, 91] := by decide
+  have hslice : slice? (q :: (inner ++ [q])) 1 ((inner.length : Int) + 1) = some inner := by
+    unfold slice?
+    have : (0 : Int) ≤ 1 ∧ (1 : Int) ≤ (inner.length : Int) + 1 ∧ (inner.length : Int) + 1 ≤ ((q :: (inner ++ [q])).length : Int) := by
+      simp only [List.length_cons, List.length_append, List.length_nil]; omega
+    rw [if_pos this]
+    simp
+  have hlast : (q :: (inner ++ [q])).getLast? = some q := by
+    have := getLast?_snoc' (q :: inner) q
+    simpa using this
+  rcases hq with rfl | rfl
+  · simp only [normDefault, lower, List.map_cons, htrue, hfalse]
+    simp [lowerByte, parseNumber, parseDigits, isDigit, isMapLike, isSliceLike, isQuoted, startsWith, stripPrefix, lastIs, hlast, hmap, hslice]
+  · simp only [normDefault, lower, List.map_cons, htrue, hfalse]
+    simp [lowerByte, parseNumber, parseDigits, isDigit, isMapLike, isSliceLike, isQuoted, startsWith, stripPrefix, lastIs, hlast, hmap, hslice]
+
 /-! ### the loop -/
 
 theorem hitBound_false (bound : Option Nat) (round : Nat) (hb : ∀ b, bound = some b → round < b) :
